@@ -30,6 +30,39 @@ Model(e, pre) ==
       [] o.op = "merge_child" -> MergeChild(t, o.p, o.l, K)
       [] o.op = "update_node" -> UpdateNode(t, o.p, o.v)
 
+\* the query API answers what the links of the recorded post-state say (the accessors are read on every index and one vacant one)
+Rev(s) == [k \in 1..Len(s) |-> s[Len(s) + 1 - k]]
+AccNames == {"contains", "is_root", "is_leaf", "value", "value_mut", "nchild", "tnode_mut", "tnode2", "parent", "parent_mut", "child", "child_mut",
+             "children", "children_rev", "node_children", "is_empty", "changed"}
+AccHolds(nm, e, t) ==
+    LET rows == e.acc.rows IN
+    CASE nm = "is_empty" -> e.acc.is_empty = (Occ(t) = {})
+      [] nm = "changed" -> ~e.acc.changed
+      [] OTHER -> \A n \in 1..Len(rows) :
+            LET a == rows[n]  i == a.i  K == e.k IN
+            CASE nm = "contains" -> a.contains = QContains(t, i)
+              [] nm = "is_root" -> a.is_root = QIsRoot(t, i)
+              [] nm = "is_leaf" -> a.is_leaf = QIsLeaf(t, i)
+              [] nm = "value" -> a.value = QValue(t, i)
+              [] nm = "value_mut" -> a.value_mut = QValue(t, i)
+              [] nm = "tnode_mut" -> a.tnode_mut = QValue(t, i)
+              [] nm = "tnode2" -> (i = t.root /\ a.tnode2 = QScalar("ok", -2)) \/ (i # t.root /\ a.tnode2 = QValue(t, i))
+              [] nm = "nchild" -> a.nchild = QNumChildren(t, i)
+              [] nm = "parent" -> a.parent = QParent(t, i)
+              [] nm = "parent_mut" -> a.parent_mut = QParent(t, i)
+              [] nm = "child" -> \A lb \in 1..K : a.child[lb] = QChild(t, i, lb - 1)
+              [] nm = "child_mut" -> \A lb \in 1..K : a.child_mut[lb] = QChild(t, i, lb - 1)
+              [] nm = "children" -> a.children = QChildren(t, i)
+              [] nm = "children_rev" -> LET q == QChildren(t, i) IN a.children_rev.res = q.res /\ a.children_rev.list = Rev([k \in 1..Len(q.list) |-> <<q.list[k].src, q.list[k].label, q.list[k].dst>>])
+              [] nm = "node_children" -> LET q == QChildren(t, i) IN
+                    IF i \notin Occ(t) THEN a.node_children.res = "err"
+                    ELSE a.node_children.res = "ok" /\ a.node_children.list = [k \in 1..Len(SelectSeq(t.nodes[i].ch, LAMBDA c : c # NONE)) |->
+                            LET ls == {s \in 1..K : t.nodes[i].ch[s] # NONE /\ Cardinality({u \in 1..s : t.nodes[i].ch[u] # NONE}) = k} IN
+                            <<(CHOOSE s \in ls : TRUE) - 1, t.nodes[i].ch[CHOOSE s \in ls : TRUE]>>]
+CheckAcc(e, post) ==
+    "acc" \notin DOMAIN e \/ \A nm \in AccNames :
+        Require(AccHolds(nm, e, post), Verdict("C12", e, "accessor " \o nm \o " does not answer what the links of the tree say after " \o e.op.op, "acc/" \o nm))
+
 Inserting(e) == e.op.op \in {"add_root", "add_child"}
 Rerooted(e) == (e.op.op = "add_root" /\ e.pre.len > 0) \/ ("orphans" \in DOMAIN e /\ e.orphans)
 
@@ -51,6 +84,7 @@ CheckEvent(e) ==
                Verdict("C12", e, "survivors do not keep index/value or wrong nodes removed/added by " \o e.op.op, sig \o "/effect"))
     /\ Require(~(e.res = "ok" /\ Inserting(e)) \/ e.ret \notin Occ(pre),
                Verdict("C12", e, "returned index was already occupied", sig \o "/retocc"))
+    /\ CheckAcc(e, post)
     /\ Require(~preOK \/ e.res = m.res, Drift(e, "result " \o e.res \o " but model " \o m.res \o " for " \o e.op.op))
     /\ Require(e.exp.res = "none" \/ ~Inserting(e) \/ e.res # "ok" \/ e.exp.ret = e.ret,
                Drift(e, "allocated index differs from slab model"))
